@@ -68,10 +68,20 @@ func genConfig(r *rng) cfgCase {
 		}
 	}
 	if haveFeeds {
-		for k, v := range stdFeeds {
+		for _, k := range []string{"empty", "f1", "f2", "solo"} {
 			if r.intn(3) > 0 {
-				feeds[k] = v
+				feeds[k] = stdFeeds[k]
 			}
+		}
+		if r.intn(3) == 0 {
+			// nothing validates feed entries at start-up, so whatever a user may have typed there
+			// (nothing, a lone sigil, half a handle, not a URL) has to be harmless when the feed is opened
+			odd := []string{"", " ", "@", "!", "@@", "@nobody", "!@", "@@h1.example", "@u1@", "nonsense", "https://", "https:", "acct:u1@h1.example", "@u1@h1.example@h2.example", "@u1@h1.example"}
+			var v []string
+			for n := 1 + r.intn(3); n > 0; n-- {
+				v = append(v, odd[r.intn(len(odd))])
+			}
+			feeds["odd"] = v
 		}
 	}
 	// a defect, or none
@@ -190,7 +200,7 @@ func genConfig(r *rng) cfgCase {
 	if order == 0 {
 		if haveFeeds {
 			fl := []string{}
-			for _, k := range []string{"empty", "f1", "f2", "solo"} {
+			for _, k := range []string{"empty", "f1", "f2", "odd", "solo"} {
 				if v, ok := feeds[k]; ok {
 					fl = append(fl, k+" = "+tomlList(v))
 				}
@@ -218,7 +228,7 @@ func genConfig(r *rng) cfgCase {
 		}
 		if haveFeeds {
 			fl := []string{}
-			for _, k := range []string{"solo", "f2", "f1", "empty"} {
+			for _, k := range []string{"solo", "odd", "f2", "f1", "empty"} {
 				if v, ok := feeds[k]; ok {
 					fl = append(fl, k+" = "+tomlList(v))
 				}
@@ -242,6 +252,25 @@ func genConfig(r *rng) cfgCase {
 		}
 		c.kind += "+long-file"
 	}
+	if c.kind == "valid" && len(c.text) > 0 && r.intn(4) == 0 {
+		// a torn file: the editor or the disk kept only a prefix, usually without a final newline.
+		// Whether the prefix still parses is not for the generator to say; either way start-up ends
+		// in a diagnostic or in a session that works.
+		cut := r.intn(len(c.text))
+		first := strings.IndexByte(c.text, '\n')
+		switch r.intn(4) {
+		case 0:
+			if first > 0 {
+				cut = r.intn(first + 1)
+			}
+		case 1:
+			last := strings.LastIndexByte(strings.TrimRight(c.text, "\n"), '\n')
+			cut = last + 1 + r.intn(len(c.text)-last-1)
+		}
+		c.text = c.text[:cut]
+		c.expect, c.kind = "either", "torn-file"
+		c.params["judged"] = 0
+	}
 	if !haveFeeds {
 		feeds = map[string][]string{}
 	}
@@ -261,9 +290,9 @@ func planC19(tier string, seed uint64) *Plan {
 		Rule: "seeded TOML files over the documented keys: valid in-range files with any subset of tables/keys in either order (must be accepted and behave as configured or as the documented defaults: timeout observed on a silent server in virtual time, preload observed as items fetched ahead of the cursor, hook observed as the recorded argv, colours observed as SGR parameters), files with a syntax error, an unknown key/table or a malformed colour (must be rejected at start-up with a diagnostic naming the file), and out-of-range or wrongly typed values (cache_size<=0, hook=[], negative preload/timeout, strings for numbers, huge integers: either outcome, but an accepted file must survive a mixed simulated session: fetches incl. a stall, feeds, key presses, external open). One worker process per file runs the real config.init(). Non-trivial = every file; distinct = distinct (file, session) fingerprint.",
 		Assumptions: []string{"the absent-file case is exercised as a file-less XDG_CONFIG_HOME", "a frozen interface (every frame iterating an absurd preload range) is treated like a crash: the worker is killed by the wall-clock watchdog and the wedge must reproduce"},
 	}
-	n := 160
+	n := 400
 	if tier == "thorough" {
-		n = 3000
+		n = 5000
 	}
 	r := &rng{s: seed ^ 0xC19C19}
 	var groups []*Group
